@@ -1,0 +1,26 @@
+//go:build verif && !windows
+
+package daemon
+
+import (
+	"os"
+	"strings"
+	"time"
+)
+
+// verifPause blocks at the named point while the environment asks for it:
+// GLB_VERIF_PAUSE=<point>:<file> waits (bounded, 5 s) until <file> exists. This lets a
+// monitor force the schedule in which the daemon's Done() precedes the launcher's wait.
+func verifPause(point string) {
+	spec := os.Getenv("GLB_VERIF_PAUSE")
+	file, ok := strings.CutPrefix(spec, point+":")
+	if !ok || file == "" {
+		return
+	}
+	for i := 0; i < 5000; i++ {
+		if _, err := os.Stat(file); err == nil {
+			return
+		}
+		time.Sleep(time.Millisecond)
+	}
+}
